@@ -126,7 +126,7 @@ func (w *windowStrategy) Pick(s *Sched, prev *Task, site string, obj interface{}
 	if prev == nil || def != prev {
 		return runnable[w.rng.Intn(len(runnable))]
 	}
-	if len(runnable) > 1 && windowSites[site] && w.rng.Chance(1, w.den) {
+	if len(runnable) > 1 && (windowSites[site] || (len(site) > 2 && site[0] == 'g' && site[1] == ':')) && w.rng.Chance(1, w.den) {
 		return pickOther(w.rng, runnable, prev)
 	}
 	return def
